@@ -58,7 +58,13 @@ fn run_scenario(sc: &Value, t: &mut Tracer) {
 		st = st.loop_region(lregion(ls, le));
 	}
 	let mut data = StaticSoundData { sample_rate: RATE, frames: coded_frames(len as usize), settings: st, slice: None };
-	if !whole {
+	// rs: the slice is given in two steps - some other slice first, then `lo..` (open-ended: up to the end of the audio),
+	// which replaces it; only meaningful when the slice ends at the end of the audio
+	let rs = c["rs"].as_bool().unwrap_or(false) && hi == len;
+	let open_from = |lo: i64| Region { start: PlaybackPosition::Samples(lo as usize), end: EndPosition::EndOfAudio };
+	if rs {
+		data = data.slice(region(0, (len / 2).max(1))).slice(open_from(lo));
+	} else if !whole {
 		data = data.slice(region(lo, hi));
 	}
 	// ---- streaming
@@ -74,7 +80,9 @@ fn run_scenario(sc: &Value, t: &mut Tracer) {
 	let ring = sc["ring"].as_u64().unwrap_or(0) as usize;
 	kira::verif::set_stream_ring_capacity(ring);
 	let mut sdata = StreamingSoundData::from_decoder(dec).with_settings(ss);
-	if !whole {
+	if rs {
+		sdata = sdata.slice(region(0, (len / 2).max(1))).slice(open_from(lo));
+	} else if !whole {
 		sdata = sdata.slice(region(lo, hi));
 	}
 	DEC_PUSHED.store(0, Ordering::SeqCst);
